@@ -40,6 +40,8 @@ def fields_text(fs):
 def idl_text(a):
     out = [f"interface {a['name']}", ""]
     for m in a["members"]:
+        for c in m.get("comments", []):
+            out.append(f"# {c}")
         if m["kind"] == "type":
             if m["isenum"]:
                 out.append(f"type {m['name']} (" + ", ".join(v["name"] for v in m["variants"]) + ")")
